@@ -1,5 +1,6 @@
 """C01 - virtual time is monotone and every timed wait resumes at exactly its date"""
 import gc
+import json
 import random
 
 from .. import bootstrap  # noqa: F401
@@ -278,12 +279,36 @@ def embedded_clock(case):
                       'activations': sess.n}}
 
 
+def exact_program(program, index):
+    """the same program on exact time: every delay, date and the start a Decimal / a Fraction"""
+    import decimal
+    import fractions
+    make = (lambda v: decimal.Decimal(str(v))) if index % 2 else (
+        lambda v: fractions.Fraction(str(v)))
+
+    def conv(node, key=None):
+        if isinstance(node, dict):
+            return {k: conv(v, k) for k, v in node.items()}
+        if isinstance(node, list):
+            return [conv(v, key) for v in node]
+        if key in ('d', 't', 'after', 'at', 'start') and isinstance(node, (int, float)) \
+                and not isinstance(node, bool) and node == node and abs(node) != float('inf'):
+            return make(node)
+        return node
+    return conv(program)
+
+
 def run_case(case):
     if case['index'] % 10 == 3 and not case.get('program'):
         return aborted_then_resumed(case)
     if case['index'] % 20 == 7 and not case.get('program'):
         return embedded_clock(case)
     program = case.get('program') or build(case)
+    if case['index'] % 16 == 9 and not case.get('program') and abs(program['start']) < 2 ** 53 \
+            and not any(step.get('op') == 'nested' for root in program['roots']
+                        for step in root['steps']) \
+            and 'Infinity' not in json.dumps(program):
+        program = exact_program(program, case['index'])
     result = run_once(case, program, None)
     shared = result.pop('shared')
     if shared and not result['violations']:
